@@ -93,7 +93,7 @@ def bad_byte_cases(tier):
     terminator and an input that is nothing but a truncated sequence: every partition of the stream and the bulk read must
     fail with the decoding error (never drop the bytes silently)"""
     bases = [b'', b'a,b\n', b'a,b\nc\n', b'a\r\n', b'"x\ny",z\n', b'h\xc3\xa9\n']
-    bads = [b'\xff', b'\x80', b'\xe4', b'\xe4\xb8', b'\xf0\x9f', b'\xc3']
+    bads = [b'\xff', b'\x80', b'\xe4', b'\xe4\xb8', b'\xf0\x9f', b'\xf0\x9f\x98', b'\xc3', b'\xed\xa0\x80', b'\xc0\xaf', b'\xf4\x90\x80\x80']
     out = []
     for base in bases:
         for bad in bads:
@@ -109,6 +109,53 @@ def bad_byte_cases(tier):
                 for pol in ('quoted', 'quoted_rfc'):
                     out.append(('all', pol, 'utf-8', False, 'n', ',', None, '', data))
     return out
+
+
+def byte_level_lines(tier, seed):
+    """(1) the streaming decoder model against node's TextDecoder as rbql_csv.js uses it: every partition of every byte string
+    of length <= n over boundary bytes; (2) byte chunks -> decoder -> stream reader (model) against the real reader on the same
+    byte chunks: random CSV texts with multi-byte characters, cut at random BYTE positions, sometimes damaged."""
+    from common import enc_list
+    bs = [0x0a, 0x0d, 0x22, 0x2c, 0x61, 0x7f, 0x80, 0xbf, 0xc2, 0xc3, 0xa9, 0xe0, 0xa0, 0xe4, 0xb8, 0xad, 0xed, 0x9f, 0xef, 0xbb, 0xf0, 0x90, 0x9f, 0x98, 0xf4, 0x8f, 0xff]
+    rnd = random.Random(seed * 1299709 + 20)
+    lines = []
+    as_str = lambda b: ''.join(chr(x) for x in b)
+    n = 3 if tier == 'quick' else 4
+    for k in range(1, n + 1):
+        tuples = list(itertools.product(bs, repeat=k))
+        if len(tuples) > 6000:
+            tuples = rnd.sample(tuples, 6000 if tier == 'quick' else 40000)
+        for tup in tuples:
+            data = bytes(tup)
+            for mask in range(1 << (k - 1)):
+                chunks, start = [], 0
+                for i in range(1, k):
+                    if mask & (1 << (i - 1)):
+                        chunks.append(data[start:i]); start = i
+                chunks.append(data[start:])
+                lines.append('utf8dec ' + enc_list([as_str(c) for c in chunks]))
+    texts = ['é,中\n😀,"a\r\nb"\n', 'id,naïve\r\n1,日本語\r\n', '\ufeffx,y\n#c\n1,2\n', 'a\r', '"é\n""中""",z', '😀😀\n😀']
+    for _ in range(400 if tier == 'quick' else 6000):
+        t = rnd.choice(texts) if rnd.random() < 0.5 else ''.join(rnd.choice(['a', ',', '"', '\n', '\r', 'é', '中', '😀', '#', ' ']) for _i in range(rnd.randint(0, 9)))
+        data = bytearray(t.encode('utf-8'))
+        if rnd.random() < 0.25 and data:
+            pos = rnd.randrange(len(data) + 1)
+            kind = rnd.random()
+            if kind < 0.4:
+                del data[pos:pos + 1]                       # drop a byte
+            elif kind < 0.7:
+                data[pos:pos] = bytes([rnd.choice([0xff, 0x80, 0xc0, 0xe4, 0xf0])])
+            else:
+                data = data[:pos]                           # truncate
+        data = bytes(data)
+        chunks, i = [], 0
+        while i < len(data):
+            step = rnd.choice([1, 1, 2, 3, 5, 64])
+            chunks.append(data[i:i + step]); i += step
+        pol = rnd.choice(['quoted', 'quoted_rfc', 'simple'])
+        hdr = rnd.random() < 0.3
+        lines.append('readjsbytes %s %s n %s %s %s' % (pol, '1' if hdr else '0', enc_str(','), rnd.choice(['~', enc_str('#')]), enc_list([as_str(c) for c in chunks])))
+    return lines
 
 
 def run(res, tier, seed):
@@ -143,6 +190,16 @@ def run(res, tier, seed):
                                'model_says': b['model'][:2000], 'impl_says': b['got'][:2000],
                                'case_key': 'C20|' + line[:300], 'replay_cmd': './check C20 --replay <this file>'})
     res.count('disagreements', len(bad))
+    # byte level: the decoder model (Model/Utf8.lean) and the composed byte-chunk reader against the real code
+    bl2 = byte_level_lines(tier, seed)
+    bad2 = common.differential(res, bl2, impls=('js',))
+    for b in bad2[:4]:
+        res.violations.append({'property': 'C20', 'impl': 'js', 'why': 'byte level: streaming UTF-8 decoding / byte-chunk reading differs from the model', 'line': b['line'][:3000],
+                               'model_says': b['model'][:1500], 'impl_says': b['got'][:1500], 'case_key': 'C20|bytes|' + b['line'][:300]})
+    for l in bl2:
+        res.count('op=' + l.split(' ', 1)[0])
+        res.nontrivial.add(l[:400])
+    res.count('byte_level_disagreements', len(bad2))
     bb = bad_byte_cases(tier)
     bl = [to_line(c) for c in bb]
     outs = common.run_impl_js(bl)
